@@ -24,6 +24,8 @@ type recCreds struct {
 }
 
 type recServer struct {
+	unary value            // the server's unary interceptor (executed by vsym.Invoke)
+	impl  map[string]iface // registered service implementations by service name
 	creds        *recCreds
 	interceptors []string
 	hasUnary     bool
@@ -47,6 +49,7 @@ func (i *interpreter) grec() *grpcRec {
 }
 
 type recOption struct {
+	fn    value // the unary interceptor function
 	kind  string
 	creds *recCreds
 	names []string
@@ -148,7 +151,7 @@ func addGRPCModel(P *Program) {
 		return opt(&recOption{kind: "stats"})
 	}
 	h["google.golang.org/grpc.UnaryInterceptor"] = func(i *interpreter, fr *frame, fn *ssa.Function, args []value) value {
-		o := &recOption{kind: "unary"}
+		o := &recOption{kind: "unary", fn: args[0]}
 		if nf, ok := args[0].(*nativeFunc); ok && nf.name == "chain" {
 			o.names = i.grec().chain
 		} else if c, ok := args[0].(*closure); ok {
@@ -169,9 +172,27 @@ func addGRPCModel(P *Program) {
 				r.chain = append(r.chain, fmt.Sprintf("%T", a))
 			}
 		}
-		return &nativeFunc{name: "chain", f: func(i *interpreter, args []value) value {
-			panic(unsupported{"the chained interceptor is not executed by this model"})
+		ics := append([]value(nil), args[0].([]value)...)
+		return &nativeFunc{name: "chain", f: func(i *interpreter, cargs []value) value {
+			// cargs: ctx, req, info, handler — run the interceptors in order, each one's handler being the rest
+			info, final := cargs[2], cargs[3]
+			var run func(k int, ctx, req value) value
+			run = func(k int, ctx, req value) value {
+				for k < len(ics) && isNilFunc(ics[k]) {
+					k++
+				}
+				if k >= len(ics) {
+					return call(i, nil, 0, final, []value{ctx, req})
+				}
+				next := &nativeFunc{name: "chained-handler", f: func(i *interpreter, hargs []value) value { return run(k+1, hargs[0], hargs[1]) }}
+				return call(i, nil, 0, ics[k], []value{ctx, req, info, next})
+			}
+			return run(0, cargs[0], cargs[1])
 		}}
+	}
+	// the context-tags interceptor only decorates the context for logging: a pass-through here
+	h["github.com/grpc-ecosystem/go-grpc-middleware/tags.UnaryServerInterceptor"] = func(i *interpreter, fr *frame, fn *ssa.Function, args []value) value {
+		return &nativeFunc{name: "ctxtags", f: func(i *interpreter, a []value) value { return call(i, nil, 0, a[3], []value{a[0], a[1]}) }}
 	}
 	h["google.golang.org/grpc.NewServer"] = func(i *interpreter, fr *frame, fn *ssa.Function, args []value) value {
 		s := &recServer{}
@@ -194,6 +215,7 @@ func addGRPCModel(P *Program) {
 			case "unary":
 				s.hasUnary = true
 				s.interceptors = o.names
+				s.unary = o.fn
 			}
 		}
 		r := i.grec()
@@ -207,6 +229,12 @@ func addGRPCModel(P *Program) {
 			if p, ok := itf.v.(*value); ok && p != nil {
 				if s, ok := (*p).(nativeHandle).v.(*recServer); ok {
 					s.registered = append(s.registered, svc)
+					if s.impl == nil {
+						s.impl = map[string]iface{}
+					}
+					if srv, ok := args[1].(iface); ok {
+						s.impl[svc] = srv
+					}
 				}
 			}
 			return nil
@@ -326,4 +354,77 @@ func isZeroish(v value) bool {
 		return t.op == "const" && t.val == 0
 	}
 	return false
+}
+
+func isNilFunc(v value) bool {
+	switch f := v.(type) {
+	case nil:
+		return true
+	case *ssa.Function:
+		return f == nil
+	case *closure:
+		return f == nil
+	case *nativeFunc:
+		return f == nil
+	case iface:
+		return f.t == nil || f.t == noopType
+	}
+	return false
+}
+
+// invoke delivers a request to the serving gRPC server as the transport would after the TLS
+// handshake: through the server's unary interceptor (chain) to the registered service's method.
+// fullMethod is "/v1.Signer/Sign"; ctx carries the peer (address, TLS state) and metadata.
+func (i *interpreter) invoke(fullMethod string, ctx, req value) value {
+	r := i.grec()
+	var s *recServer
+	for _, x := range r.servers {
+		if x.served > 0 {
+			s = x
+		}
+	}
+	if s == nil {
+		return tuple{iface{}, i.mkError("transport: no server is serving")}
+	}
+	parts := strings.Split(strings.TrimPrefix(fullMethod, "/"), "/")
+	if len(parts) != 2 {
+		return tuple{iface{}, i.mkError("unimplemented: malformed method name")}
+	}
+	svc := parts[0]
+	if k := strings.LastIndex(svc, "."); k >= 0 {
+		svc = svc[k+1:]
+	}
+	impl, ok := s.impl[svc]
+	if !ok || impl.t == nil {
+		return tuple{iface{}, i.mkError("unimplemented: unknown service " + parts[0])}
+	}
+	var mfn *ssa.Function
+	ms := i.prog.MethodSets.MethodSet(impl.t)
+	for k := 0; k < ms.Len(); k++ {
+		if ms.At(k).Obj().Name() == parts[1] {
+			mfn = i.prog.MethodValue(ms.At(k))
+		}
+	}
+	if mfn == nil {
+		return tuple{iface{}, i.mkError("unimplemented: unknown method " + parts[1])}
+	}
+	respT := mfn.Signature.Results().At(0).Type()
+	reqT := mfn.Signature.Params().At(1).Type()
+	handler := &nativeFunc{name: "grpc-method-handler", f: func(i *interpreter, a []value) value {
+		rq := a[1]
+		if itf, ok := rq.(iface); ok {
+			if itf.t == nil || !types.Identical(itf.t, reqT) {
+				return tuple{iface{}, i.mkError("grpc: error unmarshalling request: wrong message type")}
+			}
+			rq = itf.v
+		}
+		out := call(i, nil, 0, mfn, []value{impl.v, a[0], rq}).(tuple)
+		return tuple{iface{t: respT, v: out[0]}, out[1]}
+	}}
+	cell := value(structure{impl, fullMethod}) // grpc.UnaryServerInfo{Server, FullMethod}
+	info := &cell
+	if s.unary != nil && !isNilFunc(s.unary) {
+		return call(i, nil, 0, s.unary, []value{ctx, req, info, handler})
+	}
+	return call(i, nil, 0, handler, []value{ctx, req})
 }
